@@ -699,6 +699,22 @@ theorem bases_hypS {D : Decls} {ws w : World} {done : List ClassDefS} (cinv : DC
     obtain ⟨l, hl, rfl⟩ := of_mem_toDef hl'
     exact Or.inr ⟨i + 1, l.f, h1, h2, ck i hi' key l hl F (by omega), specPreAt_ne_some_nil ws D key 0 F (i + 1)⟩
 
+/-- no base has a function that the history has not declared yet as its member: nothing is filtered out of the bases -/
+theorem basesFor_eqS {ws w : World} {done : List ClassDefS} (cinv : DClassInv ws (forget done))
+    (hcls : w.classes = ws.classes) (bases : List ClsId) (key : String) (f : FnId)
+    (hf : f ∉ (allLevelsS done).map (·.f)) : basesFor w bases key f = bases := by
+  apply basesFor_eq_self
+  intro b _
+  rw [lookupMember_classes hcls]
+  rcases cinv.base_facts b key with ⟨_, h⟩ | ⟨p, g, _, h2, i, hi, _, l', hl', rfl⟩
+  · rw [h]; exact fun e => by cases e
+  · have hi' : i < done.length := by rw [← forget_length]; exact hi
+    rw [forget_getElem done i hi' hi] at hl'
+    obtain ⟨l, hl, rfl⟩ := of_mem_toDef hl'
+    rw [h2]
+    intro e
+    exact hf ((Option.some.inj e) ▸ mem_allLevelsS hi' hl)
+
 /-- what the function bound to `key` shows after the class body with bases `bases` has been collapsed -/
 def newPreS (D : Decls) (ws : World) (bases : List ClsId) (F : Nat) (key : String) (pre : List Nat) :
     List (List Nat) :=
@@ -736,11 +752,11 @@ theorem nsPass_dagS (D : Decls) (ws : World) (done : List ClassDefS) (bases : Li
     · next w1 h1 =>
       have hk : (p.1 != "__init__" && p.1 != "__new__") = true := by
         simp [(hctor p List.mem_cons_self).1, (hctor p List.mem_cons_self).2]
-      simp only [decorateMember, hk] at h1
+      have hpf : p.2.f ∉ (allLevelsS done).map (·.f) := hfresh p List.mem_cons_self
+      simp only [decorateMember, hk, basesFor_eqS cinv hcls bases p.1 p.2.f hpf] at h1
       simp only [List.map_cons, List.nodup_cons] at hnd
       have fr1 := decorateOne_frame _ _ _ _ _ _ h1
       have sn1 := decorateOne_snapNames _ _ _ _ _ _ h1
-      have hpf : p.2.f ∉ (allLevelsS done).map (·.f) := hfresh p List.mem_cons_self
       have ck1 : DCkInvS D ws w1 done := ck.frame fr1 sn1 (fun f hf => hf ▸ hpf)
       have hown1 : ∀ q ∈ ms, FnStS w1 q.2.f (ownGroups q.2.pre) q.2.posts q.2.snaps := by
         intro q hq
